@@ -57,6 +57,10 @@ type Peer struct {
 	werr     error
 	wdone    chan struct{}
 
+	// QuietAfter delays the first quiescence probe of every wait (probes
+	// allocate; allocation-measuring scenarios set this).
+	QuietAfter time.Duration
+
 	// Pace, if set, is called by the writer goroutine after each queued
 	// buffer has been written (used to wait until the peer consumed it).
 	Pace func()
@@ -328,7 +332,8 @@ func (p *Peer) WriteErr() error {
 
 // await waits until cond (evaluated under p.mu) holds.
 func (p *Peer) await(cond func() bool) (quiesce.Outcome, []quiesce.G) {
-	deadline := time.Now().Add(Watchdog)
+	start := time.Now()
+	deadline := start.Add(Watchdog)
 	wait := 500 * time.Microsecond
 	for {
 		p.mu.Lock()
@@ -343,6 +348,9 @@ func (p *Peer) await(cond func() bool) (quiesce.Outcome, []quiesce.G) {
 			t.Stop()
 			continue
 		case <-t.C:
+		}
+		if p.QuietAfter > 0 && time.Since(start) < p.QuietAfter {
+			continue
 		}
 		if q, gs := quiesce.Quiet(); q {
 			p.mu.Lock()
@@ -381,6 +389,21 @@ func (p *Peer) Next() (r *Reply, ok bool, out quiesce.Outcome, dump []quiesce.G)
 		r = p.replies[p.consumed]
 		p.consumed++
 		return r, true, out, nil
+	}
+	return nil, false, out, nil
+}
+
+// At waits for the reply at position idx of the arrival list (idx =
+// NReplies() taken before sending is "the first reply after now").
+func (p *Peer) At(idx int) (r *Reply, ok bool, out quiesce.Outcome, dump []quiesce.G) {
+	out, dump = p.await(func() bool { return idx < len(p.replies) || p.readErr != nil })
+	if out != quiesce.CondMet {
+		return nil, false, out, dump
+	}
+	p.mu.Lock()
+	defer p.mu.Unlock()
+	if idx < len(p.replies) {
+		return p.replies[idx], true, out, nil
 	}
 	return nil, false, out, nil
 }
